@@ -12,7 +12,7 @@ import (
 
 func init() {
 	Register(&Scenario{Prop: "C12", Name: "malformed-messages", Run: scenC12, SoftParks: true, Weight: 1,
-		Rule: "honest writer W and receiver R sharing 1-2 databases, and a hostile peer that is present on the database topics and on the pairwise direct channel with R; W writes, real announcements are captured from the wire; then 3-10 (thorough 3-24) hostile payloads, each from one generator class {random bytes, JSON with heads null / [] / [null] / ill-typed / empty objects, a real head with one of identity, clock, hash, key, sig, next, id, payload removed or nulled, byte flip / delete / splice / truncate / duplicate of a captured real message, huge JSON nesting, wrong address field} sent on the database topic or on the direct channel; one payload in three is followed by a race: W writes and a corrupted twin of its fresh announcement (same claimed hash) is delivered to R in the same quantum as the real one, whose entry must still reach R before any later write; after each payload: the worker process is alive, every entry in R's logs is one an honest writer wrote and R's views equal the replay of its logs; finally W writes to every database and each new entry must reach R within 90 virtual seconds; non-trivial = >=3 payloads from >=3 classes over both routes"})
+		Rule: "honest writer W and receiver R sharing 1-2 databases, and a hostile peer that is present on the database topics and on the pairwise direct channel with R; W writes, real announcements are captured from the wire; then 3-10 (thorough 3-24) hostile payloads, each from one generator class {random bytes, JSON with heads null / [] / [null] / ill-typed / empty objects, a real head with one of identity, clock, hash, key, sig, next, id, payload removed or nulled, byte flip / delete / splice / truncate / duplicate of a captured real message, huge JSON nesting, wrong address field} sent on the database topic or on the direct channel; one payload in three is followed by a race: W writes and a corrupted twin of its fresh announcement (same claimed hash) is delivered to R in the same quantum as the real one, whose entry must still reach R before any later write (one variant drops W's own announcement and has the hostile peer relay the genuine bytes on its direct channel with R, a broken payload right behind them); after each payload: the worker process is alive, every entry in R's logs is one an honest writer wrote and R's views equal the replay of its logs; finally W writes to every database and each new entry must reach R within 90 virtual seconds; non-trivial = >=3 payloads from >=3 classes over both routes"})
 }
 
 func init() {
@@ -225,13 +225,37 @@ func c12Twin(k *K, adv *Adversary, peers []*Peer, addr string, w, r iface.Store,
 	}
 	h["payload"] = pl[:i] + string(c) + pl[i+1:]
 	twin, _ := json.Marshal(msg)
-	route := []string{"topic", "direct"}[k.C.Intn(2)]
+	route := []string{"topic", "direct", "direct-back-to-back"}[k.C.Intn(3)]
 	copies := k.C.Range(1, 2)
-	for j := 0; j < copies; j++ {
-		if route == "topic" {
-			adv.PublishRaw(addr, twin)
-		} else {
-			adv.PublishRaw(PairTopic(adv.Node, peers[1].Node), twin)
+	if route == "direct-back-to-back" {
+		// W's own announcement is lost; the hostile peer relays the genuine bytes on its direct
+		// channel with R, with a broken payload right behind them: two payloads waiting on
+		// the same channel at once
+		k.W.mu.Lock()
+		var keep []*Pend
+		for _, p := range k.W.pending {
+			if p.kind == pkMsg && p.src == wIdx && p.dst == rIdx && p.topic == addr {
+				k.W.tr("drop %s", p)
+				k.W.stat("drop")
+				continue
+			}
+			keep = append(keep, p)
+		}
+		k.W.pending = keep
+		k.W.mu.Unlock()
+		pair := PairTopic(adv.Node, peers[1].Node)
+		adv.PublishRaw(pair, real)
+		broken := [][]byte{real[:len(real)/2], twin, []byte("{"), {}}[k.C.Intn(4)]
+		for j := 0; j < copies; j++ {
+			adv.PublishRaw(pair, broken)
+		}
+	} else {
+		for j := 0; j < copies; j++ {
+			if route == "topic" {
+				adv.PublishRaw(addr, twin)
+			} else {
+				adv.PublishRaw(PairTopic(adv.Node, peers[1].Node), twin)
+			}
 		}
 	}
 	k.W.Stat("malformed:twin-of-fresh-announcement")
